@@ -149,6 +149,32 @@ def r2(db, rep, fe, fx):
                 r.ok("%s|writes_%s" % (d, nm), db.where(body), detail={"note": "reviewed writer"})
 
 
+def unit_of(db, d):
+    """The function and the private helpers of ControlFlowGraph it calls (transitively), each with the index of the
+    parameter that is the graph being edited (`&mut ControlFlowGraph`): a step may be factored out without the rule
+    losing sight of it."""
+    out = [(d, 1)]
+    seen = {d}
+    work = [d]
+    while work:
+        f = work.pop()
+        for i, t in mir_calls(db.mir[f]):
+            c = mir_callee(t) or ""
+            if c in seen or not c.startswith(CFGT + "::") or c not in db.mir:
+                continue
+            h = db.hir.get(c)
+            if h is None or h.get("vis") == "Public":
+                continue
+            ins = h.get("inputs") or []
+            idx = [k + 1 for k, ty in enumerate(ins) if ty.replace("'_ ", "").startswith("&mut") and ty.endswith("ControlFlowGraph")]
+            if len(idx) != 1:
+                continue
+            seen.add(c)
+            out.append((c, idx[0]))
+            work.append(c)
+    return out
+
+
 def r3(db, rep, fn_):
     r = rep.rule("R3", "K7", "fresh block indices: every block inserted by new_block / append / insert is numbered with "
                  "next_index, which is incremented for each; Block::new, Edge::new and clone_new_index are not public")
@@ -158,22 +184,24 @@ def r3(db, rep, fn_):
         body = db.mir.get(d)
         rep.anchor(body is not None, d)
         rep.analysed(d)
-        tm = terms_of(db, d, cache)
         ok_idx = True
         n = 0
-        for i, t in mir_calls(body):
-            c = mir_callee(t) or ""
-            if c in ("il::block::Block::new", "il::block::Block::clone_new_index"):
-                a = tm.operand(t["args"][-1])
-                n += 1
-                ok_idx = ok_idx and any(s_ == ("field", ("param", 1), fn_) for s_ in subterms(a))
         incs = 0
-        for b in body["blocks"]:
-            t = b["t"]
-            if t["k"] == "Assert" and t["ak"] == "Overflow" and t["detail"]["op"] == "Add":
-                a = tm.operand(t["detail"]["a"])
-                if a == ("field", ("param", 1), fn_):
-                    incs += 1
+        for ud, sp in unit_of(db, d):
+            ubody = db.mir[ud]
+            tm = terms_of(db, ud, cache)
+            for i, t in mir_calls(ubody):
+                c = mir_callee(t) or ""
+                if c in ("il::block::Block::new", "il::block::Block::clone_new_index"):
+                    a = tm.operand(t["args"][-1])
+                    n += 1
+                    ok_idx = ok_idx and any(s_ == ("field", ("param", sp), fn_) for s_ in subterms(a))
+            for b in ubody["blocks"]:
+                t = b["t"]
+                if t["k"] == "Assert" and t["ak"] == "Overflow" and t["detail"]["op"] == "Add":
+                    a = tm.operand(t["detail"]["a"])
+                    if a == ("field", ("param", sp), fn_):
+                        incs += 1
         r.decide(n >= 1 and ok_idx and incs >= 1, "%s|fresh_index" % name, db.where(body),
                  "%s numbers a new block with something other than next_index or does not advance it" % name)
     for fnp in ("il::block::Block::new", "il::block::Block::clone_new_index", "il::edge::Edge::new",
@@ -195,9 +223,11 @@ def r4(db, rep, fe, fx):
         body = db.mir[d]
         tm = terms_of(db, d, cache)
         edges = []
-        for i, t in mir_calls(body):
-            if mir_callee(t) == "il::edge::Edge::new":
-                edges.append([tm.operand(a) for a in t["args"]])
+        for ud, sp in unit_of(db, d):
+            utm = terms_of(db, ud, cache)
+            for i, t in mir_calls(db.mir[ud]):
+                if mir_callee(t) == "il::edge::Edge::new":
+                    edges.append([(utm if ud != d else tm).operand(a) for a in t["args"]])
         copied = [e for e in edges if any(last_seg(c[1]) in ("head", "tail") for a in e[:2] for c in calls_in(a))]
         okc = bool(copied)
         for e in copied:
